@@ -147,3 +147,11 @@ _push('C06', 'Lean 4 proof (all-schedules invariant of the apply-phase transitio
       'under forced random schedules (scheduling points around the shared atomic and before every file-system write) and with free-running '
       'threads for 2-16 workers; tree, .pc, rejects and exit status must equal the single-threaded specification.',
       ' Partial: the save phase (writes of different workers to distinct paths are independent of the interleaving) is covered by the forced-schedule runs only, not by a theorem; memory-model effects below SC atomics and rayon itself are outside the model.')
+
+META['C01'] = {'engine': 'rqharness diff (+ parse) + rqmodel', 'design_ref': 'DESIGN.md section 5 C01',
+    'technique': 'Lean 4 proof (declarative ValidDiff => exact application in both directions; bytes/lines round trip; parser reads the plain and git dialects back) + differential correspondence on rendered diffs incl. CLI runs',
+    'text': 'Theorems C01_lines_roundtrip, C01_lines_shape, C01_forward, C01_reverse (all valid unified diffs, any context width, both directions, any '
+            'fuzz limit: result exactly B / A, offset 0, fuzz 0) and C01_parse_plain. Real parse_patch + TextFilePatch::apply (and a sample through '
+            'the command line) on rendered diffs of random (A, B) in all dialects must give exactly B / A with exact reports.',
+    'note': 'Trusted: Lean kernel; models of parser.rs / patch/mod.rs / lines_with_endings.rs (compared on every run); the harness renderer as a source of valid diffs. '
+            'Known finding: c0-top-of-file (single zero-context hunk at the top of a non-empty file is treated as whole-file create/delete).'}
